@@ -127,6 +127,8 @@ def drive(ctx, name: str, strategy, evaluate: Callable[[Any], Outcome], max_exam
     ctx: worker context (seed, shard, known signatures ...)
     """
     stats = stats or Stats()
+    if getattr(ctx, "options", {}).get("shrink") is False:
+        shrink = False
     if reset == "default":
         from vp import env as _env
         reset = _env.reset_caches
